@@ -14,13 +14,13 @@ SIMNOTE = "trusted base: the dsim kernel (one task runs at a time, so executions
 
 CHECKS = {
  "C05": ("linebuf", "E2", "5.2", "seeded simulation of emit/flush/drop histories against an observation-driven reference model of line packing, checked on every underlying write",
-         "Seeded exploration: ~10^5 (quick) to ~10^7 (thorough) fault-free histories over 4 construction routes x capacities (0,1,exact-fit,default 512,...) x terminators, lengths aimed at the current fill boundary; every underlying write must be an in-order run of complete lines within capacity or one oversize metric alone. A clean batch is evidence, not proof.", SOCK),
- "C06": ("linebuf", "E2", "5.2", "seeded simulation of emit/flush/drop histories; conservation and order checked against a reference model at every flush and at drop",
-         "Seeded exploration of fault-free histories; acknowledged metrics must be written exactly once, in order, by the next successful flush or the drop; flushing again writes nothing; results must be Ok(len).", SOCK),
+         "Seeded exploration: ~10^5 (quick) to ~10^7 (thorough) histories (three quarters fault-free, a quarter with refused writes, on which the framing clauses are judged too) over 4 construction routes x capacities (0,1,exact-fit,default 512,...) x terminators, lengths aimed at the current fill boundary; every underlying write must be an in-order run of complete lines within capacity or one oversize metric alone. A clean batch is evidence, not proof.", SOCK),
+ "C06": ("linebuf+queue", "E2+E3", "5.2", "seeded simulation of emit/flush/drop histories; conservation and order checked against a reference model at every flush and at drop; plus seeded schedule search with a real buffered sink behind a QueuingMetricSink and flush() through the queuing handle concurrent with the worker",
+         "Seeded exploration of histories (three quarters fault-free, a quarter with refused writes for the conservation clauses); acknowledged metrics must be written exactly once, in order, by the next successful flush or the drop; flushing again writes nothing; results must be Ok(len). E3: a flush through a queuing handle that returns Ok means every metric the buffered sink had accepted before the flush was invoked is on the wire.", SOCK),
  "C07": ("linebuf", "E2", "5.2", "seeded fault injection on every attempted underlying write (single-fault sweep over every attempt of sampled histories + random multi-fault with consecutive retries), judged by the same reference model in fault mode",
          "Seeded fault-injecting exploration: each attempted underlying write may fail with any io::ErrorKind (incl. Interrupted, retried by BufWriter); results must be Ok or the socket's own error, refused metrics never appear later, accepted ones stay buffered and leave exactly once, unsplit and in order; no panic. A separate configuration also fails the writer's own flush().", SOCK),
  "C19": ("linebuf+sockets", "E2+E5", "5.2", "seeded simulation; strict layer of the reference model: each write must happen in the call greedy in-order packing predicts and carry everything buffered; plus seeded schedule search over 1-4 emitter threads sharing a buffered socket sink, every datagram sent during an emit judged for necessity",
-         "Seeded exploration of fault-free histories biased to exact-fit / one-byte-short boundaries; the shape of the writes of every call must equal what greedy in-order packing allows (exact-fill writes tolerated as the property states), plus an independent comparison of datagram sizes with the greedy packing of the emitted lengths. On buffered UDP/Unix sinks shared by 1-4 simulated threads (E5): a datagram that leaves during an emit and does not carry that emit's metric must have been too full to take it.", SOCK),
+         "Seeded exploration of histories (four fifths fault-free; a fifth with refused writes, judged by a prefix rule) biased to exact-fit / one-byte-short boundaries; the shape of the writes of every call must equal what greedy in-order packing allows (exact-fill writes tolerated as the property states), plus an independent comparison of datagram sizes with the greedy packing of the emitted lengths. On buffered UDP/Unix sinks shared by 1-4 simulated threads (E5): a datagram that leaves during an emit and does not carry that emit's metric must have been too full to take it.", SOCK),
 }
 
 QNOTE = "the wrapped sink is scripted (ok / io error / panic / slow / stall on a gate per invocation); crossbeam's blocking paths are replaced by simulated waiting on the real queue; capacity 0 (rendezvous, hand-modelled) is judged for everything except C10's occupancy clauses"
@@ -31,7 +31,7 @@ CHECKS.update({
          "Seeded exploration of the last drop at every occupancy 0..=capacity (incl. completely full), by main or by a producer task, with the worker running, starved or stalled inside the wrapped sink; after gates open the run must reach quiescence with everything delivered, every background task finished, the wrapped sink dropped exactly once, and no drop ever blocking or panicking.", QNOTE),
  "C10": ("queue", "E3", "5.3", "seeded schedule search with the wrapped sink stalled on a gate; emit judged by own-step count, blocked-state count and the channel trace",
          "Seeded exploration with the worker stalled, slow, failing or panicking: emit must never enter a blocked state, take a bounded number of its own steps, return Ok(len) exactly when the channel trace shows room and an error only when the queue holds as many METRICS as the capacity given to the constructor (never exceeded; flushes through a handle and whatever else a variant puts on the channel take no room), never run the wrapped sink on a caller task, and no wrapped-sink error or panic may reach a caller.", QNOTE),
- "C11": ("queue", "E3", "5.3", "seeded schedule search with injected panics (real unwinding through Worker::run into Sentinel::drop, which respawns under the scheduler)",
+ "C11": ("queue", "E3", "5.3", "seeded schedule search with injected panics (real unwinding through WorkerCore::run into Sentinel::drop, which respawns under the scheduler)",
          "Seeded exploration of ok/error/panic assignments incl. consecutive panics, first/last queued and panics after the last drop: delivery must still equal acceptance order exactly once, the sink keeps accepting, and panics() equals the number of injected panics at quiescent points.", QNOTE),
  "C15": ("queue", "E3", "5.3", "seeded schedule search with a concurrent sampler task; counters compared with the harness's own counts at quiescent points",
          "Seeded exploration: at harness-made quiescent points submitted/drained/queued must equal the number of Ok emits, wrapped-sink invocations and their difference; a sampler task reads queued() then submitted() at arbitrary interleavings (incl. the worker overtaking the producer's bookkeeping) and must see 0 <= queued <= submitted.", QNOTE),
@@ -42,7 +42,7 @@ CHECKS.update({
 SNOTE = "UDP and Unix datagram sockets are in-memory stubs (ledger of destination, payload, result; injectable result per send incl. EAGAIN, ECONNREFUSED, ENOBUFS, EINTR, ENOENT, EMSGSIZE, and a full buffer that blocks a blocking-mode sender); the real kernel socket is not exercised"
 CHECKS.update({
  "C12": ("sockets", "E5", "5.4", "seeded schedule search over 2-4 emitter tasks sharing one Arc<StatsdClient> over a buffered sink; stream oracle on the merged datagram stream plus a flush barrier",
-         "Seeded exploration of interleavings (yield points at lock, unlock, socket send, stats atomics, channel send - also while the lock is held): every datagram is whole lines within capacity or one oversize metric alone, every Ok-acknowledged metric is on the wire exactly once by the final drop and already when a later flush returns Ok, each task's buffered metrics leave in program order. A quarter of the runs also refuse sends (a failed flush of one thread must not damage what another thread emits next).", SNOTE),
+         "Seeded exploration of interleavings (scheduling points at lock, socket send, stats atomics, channel send - also while the lock is held - and, in a third of the runs, right after the effect of each of them and after unlock): every datagram is whole lines within capacity or one oversize metric alone, every Ok-acknowledged metric is on the wire exactly once by the final drop and already when a later flush returns Ok, each task's buffered metrics leave in program order. A quarter of the runs also refuse sends (a failed flush of one thread must not damage what another thread emits next).", SNOTE),
  "C13": ("sockets", "E5", "5.5", "seeded simulation of the socket sinks over a stub socket ledger: per-emit datagram matching for unbuffered sinks, the E2 reference model for buffered ones",
          "Seeded exploration over constructor address forms, blocking modes, metric strings (multi-byte UTF-8, blanks at the edges, embedded newlines, 0..65507 bytes and one over), capacities and send results: one datagram per emit with exactly the metric's bytes to the constructed destination and the socket's own result; buffered sinks follow the C05 model with a single newline and send the rest on flush and drop.", SNOTE),
  "C14": ("sockets", "E5", "5.5", "seeded schedule search with 1-4 concurrent emitters and injected send failures; stats() compared with the socket ledger at quiescent points, also through a queuing wrapper",
@@ -51,8 +51,8 @@ CHECKS.update({
 
 CHECKS.update({
  "C18": ("holder", "E6", "5.6", "seeded schedule search over set/get/is_set on a fresh SingletonHolder with every atomic operation and both cell accesses as scheduling points; write-once-register oracle + vector-clock happens-before tracker using the orderings written in the source; Miri many-seeds as second opinion in the thorough tier",
-         "Seeded exploration with 2-4 tasks incl. two racing setters and readers inside the LOADING window: all reads return 'not set' or one identical, intact winner; the first completed set wins; reads invoked after it returned report set; and every read of the unsafe cell must happen-after the initialising write under the C11 rules (release sequences, acquire loads/RMWs, failed-CAS orderings, spawn edges) even though the simulated run itself is sequentially consistent. Thorough tier adds the unhooked code under Miri (weak-memory emulation + data-race detector), independent of the tracker.",
-         "trusted base: the happens-before tracker in dsim/src/hb.rs (not a full C11 model: no fences, no consume, SeqCst treated as AcqRel), the two tracer calls placed next to the raw-pointer dereferences; Miri for the second opinion"),
+         "Seeded exploration with 2-4 tasks incl. two racing setters and readers inside the LOADING window: all reads return 'not set' or one identical, intact winner; the first completed set wins; reads invoked after it returned report set; and every read of the unsafe cell must happen-after the initialising write under the C11 rules (release sequences, acquire loads/RMWs, failed-CAS orderings, release/acquire fences, lock edges of hooked mutexes, spawn and join edges) even though the simulated run itself is sequentially consistent. Thorough tier adds the unhooked code under Miri (weak-memory emulation + data-race detector), independent of the tracker.",
+         "trusted base: the happens-before tracker in dsim/src/hb.rs (not a full C11 model: no consume, SeqCst treated as AcqRel, no total order of SeqCst operations), the two tracer calls placed next to the raw-pointer dereferences; Miri for the second opinion"),
 })
 
 CHECKS.update({
@@ -83,7 +83,7 @@ def main():
             "replay_cmd_template": f"./check {pid} --replay {{path}}",
             "engine": eng.split("+")[0],
             "level_claimed": {"category": "exploration", "text": text, "design_ref": f"DESIGN.md section {ref}"},
-            "level_note": (note + "; single task, no scheduler involved; sampling, not proof") if eng in ("linebuf", "sinkfault", "macroproc", "all") else (note + "; " + SIMNOTE),
+            "level_note": (note + "; single task, no scheduler involved; sampling, not proof") if eng in ("linebuf",) else (note + "; " + SIMNOTE),
             "technique": "deterministic simulation with fault injection: " + tech,
         })
     claimed = set(CHECKS)
@@ -103,14 +103,14 @@ def main():
             "add_only": True,
         },
         "engines": [
-            {"name": "dsim", "path": "dsim/", "serves_properties": sorted(claimed - {"C17"}), "kind_free_text": "simulation kernel (real threads, one runs at a time, seeded scheduler, quiescence detection, teardown) + pass-through shims"},
-            {"name": "queue", "path": "ws/engines/src/e3.rs", "serves_properties": ["C08", "C09", "C10", "C11", "C15", "C16"], "kind_free_text": "E3: the real QueuingMetricSink (worker thread, sentinel respawn, crossbeam channel, counters) as simulated tasks against a scripted wrapped sink"},
-            {"name": "sockets", "path": "ws/engines/src/e5.rs", "serves_properties": ["C12", "C13", "C14", "C19"], "kind_free_text": "E5: socket-backed sinks over simulated datagram sockets, 1-4 emitter tasks sharing a sink / client / queuing wrapper"},
-            {"name": "holder", "path": "ws/engines/src/e6.rs", "serves_properties": ["C18"], "kind_free_text": "E6: SingletonHolder under simulated tasks with a happens-before tracker; miri-c18/ is the Miri second opinion"},
-            {"name": "sinkfault", "path": "ws/engines/src/e1.rs", "serves_properties": ["C03"], "kind_free_text": "E1: StatsdClient over a scripted sink with a per-emit fault plan"},
-            {"name": "sharedclient", "path": "ws/engines/src/e8.rs", "serves_properties": ["C03"], "kind_free_text": "E8: one StatsdClient shared by 2-4 simulated caller threads; sink answers per metric; scheduling points inside sink and error handler"},
-            {"name": "macroproc", "path": "ws/engines/src/e7.rs", "serves_properties": ["C17"], "kind_free_text": "E7: one fresh child process per history for the process-global client; differential against a twin client"},
-            {"name": "linebuf", "path": "ws/engines/src/e2.rs", "serves_properties": ["C05", "C06", "C07", "C19"], "kind_free_text": "E2: histories of emit/flush/drop on the line-buffering writer and the buffered sinks with a per-write fault plan; reference model in ws/engines/src/linemodel.rs"},
+            {"name": "dsim", "path": "dsim/", "serves_properties": sorted(claimed), "kind_free_text": "simulation kernel (real threads, one runs at a time, seeded scheduler, quiescence detection, teardown) + pass-through shims"},
+            {"name": "queue", "path": "ws/engines/src/e3.rs", "serves_properties": ["C06", "C08", "C09", "C10", "C11", "C15", "C16", "C20"], "kind_free_text": "E3: the real QueuingMetricSink (worker thread, sentinel respawn, crossbeam channel, counters) as simulated tasks against a scripted wrapped sink"},
+            {"name": "sockets", "path": "ws/engines/src/e5.rs", "serves_properties": ["C12", "C13", "C14", "C19", "C20"], "kind_free_text": "E5: socket-backed sinks over simulated datagram sockets, 1-4 emitter tasks sharing a sink / client / queuing wrapper"},
+            {"name": "holder", "path": "ws/engines/src/e6.rs", "serves_properties": ["C18", "C20"], "kind_free_text": "E6: SingletonHolder under simulated tasks with a happens-before tracker; miri-c18/ is the Miri second opinion"},
+            {"name": "sinkfault", "path": "ws/engines/src/e1.rs", "serves_properties": ["C03", "C20"], "kind_free_text": "E1: StatsdClient over a scripted sink with a per-emit fault plan"},
+            {"name": "sharedclient", "path": "ws/engines/src/e8.rs", "serves_properties": ["C03", "C20"], "kind_free_text": "E8: one StatsdClient shared by 2-4 simulated caller threads; sink answers per metric; scheduling points inside sink and error handler"},
+            {"name": "macroproc", "path": "ws/engines/src/e7.rs", "serves_properties": ["C17", "C20"], "kind_free_text": "E7: one fresh child process per history for the process-global client; differential against a twin client; a concurrent phase runs the dsim kernel inside the child"},
+            {"name": "linebuf", "path": "ws/engines/src/e2.rs", "serves_properties": ["C05", "C06", "C07", "C19", "C20"], "kind_free_text": "E2: histories of emit/flush/drop on the line-buffering writer and the buffered sinks with a per-write fault plan; reference model in ws/engines/src/linemodel.rs"},
         ],
         "checks": checks,
         "not_applicable": na,
